@@ -19,6 +19,19 @@ conversion has usually named the line already).  The same histories hold GFA1 li
 covered by a placeholder link only and carry the identifier of another line (an addition to an identifier in use that
 replaces a placeholder instead of being registered afresh).
 
+A line may also reach the Gfa as an *object* the caller built, and a reference field of a line that is not yet in a Gfa
+may be assigned in its string form (line.sid2 = "x+", line.items = "a b x", line.segment_names = "a+,x+"; the string is
+parsed when the field is next read).  One random history in five (gen_case index i % 5 == 2: the base history is generated
+exactly as before, then one or two calls are inserted at random positions, _hist_extra.inject_listed_identifiers) holds
+lines that list their own, fresh, identifier - "P x A+,x+ *", "O x A+ x+", "U x A x", "E x A+ x- ...", "G x x+ A- ...",
+the identifier first, in the middle or last - and (GFA1) paths whose third or fourth segment name is the identifier of a
+stored path / link / containment; 70% of these calls are "addset" steps (see _hist_extra): gfapy.Line(text) without the
+offending reference, the reference field then assigned the string that holds it, then g.add_line(line); the rest is
+plain text.  15% of the addset steps assign an ordinary value (a legal line with a fresh identifier).  A line that lists
+itself cannot be stored without a second line - the placeholder of the item - carrying its identifier; whether the call
+raises is not demanded here (the identifier is not in use before the call), the invariants after it are.  An addset step
+whose resulting text carries an identifier in use is held to the duplicates clause like add_line of that text.
+
 Checked after every step:
 
   * uniqueness  g.names has no duplicate and holds only strings; no two lines of str(g) carry the same written
@@ -52,7 +65,8 @@ identifier-carried-by-line-and-placeholder, mentioned-line-not-found-under-ident
 identifier-missing-from-names, lookup-misses-name, lookup-returns-wrong-line, try-get-line-disagrees,
 segment-lookup-disagrees, segment-lookup-returns-non-segment, lookup-finds-unused-identifier,
 try-get-line-of-unused-identifier, unused-name-in-use, rename-text-wrong, observation-raises}, foreign-exception;
-op in {add-<RT>, rm, rmline-<RT>, disconnect, rename, settag (set("ID", n) included), deltag, convert, convertline}.
+op in {add-<RT>, addset-<RT>, rm, rmline-<RT>, disconnect, rename, settag (set("ID", n) included), deltag, convert,
+convertline}.
 On the pinned tree: rename-duplicate-accepted = DESIGN 7 #3; add-duplicate-accepted-O/U, add-duplicate-raises-TypeError
 and foreign-exception (add-O/U TypeError) = #4; lookup-misses-name-after-add-L/C, add-duplicate-accepted-L/C,
 names-duplicate-after-add-L = #20.
@@ -71,6 +85,7 @@ NOT CHECKED:
 """
 from harness import lib
 from harness.props import _hist as H
+from harness.props import _hist_extra as X
 
 ID = "C09"
 RULE = ("exhaustive: on a base graph per version (3 segments incl. an integer-looking one, an ID-tagged link and "
@@ -86,8 +101,13 @@ RULE = ("exhaustive: on a base graph per version (3 segments incl. an integer-lo
         "rename onto existing, rename onto an identifier that is only mentioned), renames to fresh and integer-looking names, forward references, removals in "
         "between; one history in five also with set('ID', n) on connected L/C lines (fresh n, n in use), conversions of "
         "the Gfa or of a line to the other version (GFA1 -> GFA2 names the ID-less L/C lines), and links that replace "
-        "the placeholder link of a path step while carrying an identifier in use. Non-trivial: at least one rename, "
-        "set('ID'), conversion or one addition aimed at an identifier in use. Distinct by case hash.")
+        "the placeholder link of a path step while carrying an identifier in use; one history in five with one or two "
+        "inserted lines that list their own fresh identifier (P / O / U / E / G) or (GFA1) paths whose third or fourth "
+        "segment name is the identifier of a path / link / containment, 70% of them added as a line object whose "
+        "reference field (sid1 / sid2 / items / segment_names) was assigned in string form after construction (15% of "
+        "those with an ordinary value). Non-trivial: at least one rename, "
+        "set('ID'), conversion, one addition aimed at an identifier in use or one line that lists itself. Distinct by "
+        "case hash.")
 
 # one history in five (gen_case index i % 5 == 4; the others are generated exactly as before): PROF plus identifiers
 # given to connected L/C lines by set("ID", n), conversions to the other version, late links with a borrowed identifier
@@ -226,12 +246,18 @@ def budget(tier):
 
 
 def gen_case(rng, tier, i):
-    return H.gen_case(rng, tier, PROF_ID if i % 5 == 4 else PROF, p_unknown=0.0, vlevels=(1, 1, 1, 1, 2, 3, 0))
+    case = H.gen_case(rng, tier, PROF_ID if i % 5 == 4 else PROF, p_unknown=0.0, vlevels=(1, 1, 1, 1, 2, 3, 0))
+    if i % 5 == 2:
+        # the base history is what it always was; lines that list their own identifier (most of them built as objects
+        # with the reference field assigned in string form) are inserted into it
+        case = X.inject_listed_identifiers(rng, case, p_object=0.7, p_second=0.3, control=0.15)
+    return case
 
 
 def nontrivial(case):
     return any(s[0] == "rename" or lab.startswith("fail:dup") or lab.startswith("cell:") or
-               lab.startswith("giveid") or lab.startswith("fail:giveid") or lab.startswith("convert")
+               lab.startswith("giveid") or lab.startswith("fail:giveid") or lab.startswith("convert") or
+               lab.startswith("fail:self-mention")
                for s, lab in zip(case["hist"], case["labels"]))
 
 
@@ -384,8 +410,9 @@ def oracle(case):
         line = None
         rename_check = None
         target_id = None   # identifier this call tries to give to a line
-        if op == "add" and H.well_formed(step[1], v):
-            f = H.split_rec(step[1])
+        added = step[1] if op == "add" else X.addset_text(step) if op == "addset" else None   # text of the line added
+        if added is not None and H.well_formed(added, v):
+            f = H.split_rec(added)
             n = H.rec_id(f, v)
             target_id = n
             if n is not None and n in ids and not any(virt for _, virt in ids[n]):
@@ -394,7 +421,7 @@ def oracle(case):
                 linkdup = f[0] == "L" and tuple(f[1:5]) in link_pairs(pre)
                 if not merge and not linkdup:
                     demand = ("add", f[0], prt)
-        elif op != "add":
+        elif op not in ("add", "addset"):
             tgt = H.step_target(step)
             if op != "rm":
                 r = lib.outcome(H.resolve, g, tgt)
@@ -421,13 +448,13 @@ def oracle(case):
                         mentioned.update(H.mentions(H.split_rec(t), v))
                     if new not in mentioned:
                         rename_check = (old, new)
-        r = H.apply_step(g, step, line)
+        r = X.apply_step(g, step, line)
         if r[0] == "skip":
             continue
         F = []
         if r[0] == "foreign" and op not in ("convert", "convertline"):
             # (whether and how a conversion fails is not this property's subject; the invariants after it are)
-            F.append("foreign-exception: %s raises %s %s" % (H.step_kind(step), r[1], where))
+            F.append("foreign-exception: %s raises %s %s" % (X.step_kind(step), r[1], where))
         if demand is not None:
             what, rt, prt = demand
             if r[0] == "ok":
@@ -466,7 +493,7 @@ def oracle(case):
             pre_ = "after-failed-step-" if failed else ""
             f = F[0]
             head, _, rest = f.partition(":")
-            return ["%s%s-after-%s:%s %s" % (pre_, head, H.step_kind(step), rest, where)]
+            return ["%s%s-after-%s:%s %s" % (pre_, head, X.step_kind(step), rest, where)]
         if merge_rename and not failed:
             return []  # documented merge of two groups by renaming: what the merged group holds is not checked here
         if op == "rename" and step[2] == "*" and not failed:
